@@ -218,6 +218,9 @@ private:
   {
     SessionId id{0};
     std::chrono::steady_clock::time_point lastUsed{};
+    /// How the session was opened: a connection is only reused by requests of
+    /// the SAME scheme (an https request must never ride a plain connection).
+    TlsMode tls{TlsMode::None};
   };
 
   // ── RFC 9112 §6.3/§7.1 response framing types (declared before the methods
@@ -759,6 +762,7 @@ private:
   SessionId acquireConnection(const ParsedUrl &parsedUrl)
   {
     const std::string hostPort = parsedUrl.getHostPort();
+    const TlsMode tlsMode = parsedUrl.isHttps() ? TlsMode::Client : TlsMode::None;
 
     // (1) Reuse a live, non-idle cached connection (short critical section).
     {
@@ -767,12 +771,13 @@ private:
       if (it != _connections.end())
       {
         auto now = std::chrono::steady_clock::now();
-        if (now - it->second.lastUsed < _config.connectionIdleTimeout)
+        if (it->second.tls == tlsMode && now - it->second.lastUsed < _config.connectionIdleTimeout)
         {
           it->second.lastUsed = now;
           return it->second.id;
         }
-        // Idle: close and evict, then fall through to reconnect.
+        // Idle, or opened for the other scheme (http vs https share host:port):
+        // close and evict, then fall through to reconnect.
         _transport->close(it->second.id);
         _connections.erase(it);
       }
@@ -784,8 +789,6 @@ private:
     // (3) Open a new connection synchronously (no _mutex held — LEASE-7). Safe
     //     because the lease makes this thread the exclusive owner of hostPort's
     //     slot, so no other thread races this connect/publish.
-    TlsMode tlsMode = parsedUrl.isHttps() ? TlsMode::Client : TlsMode::None;
-
     // Use shorter timeout for localhost — connection refused should be instant.
     auto timeout = (resolvedHost == "127.0.0.1" || resolvedHost == "::1")
       ? std::min(_config.connectTimeout, std::chrono::milliseconds(200))
@@ -802,7 +805,7 @@ private:
     // (4) Publish the new connection (short critical section).
     {
       std::lock_guard<std::mutex> lock(_mutex);
-      _connections[hostPort] = ConnectionEntry{sessionId, std::chrono::steady_clock::now()};
+      _connections[hostPort] = ConnectionEntry{sessionId, std::chrono::steady_clock::now(), tlsMode};
     }
 
     return sessionId;
